@@ -239,8 +239,10 @@ func (p *Parser) ParseInfixStringConcatExpression(left ast.Expression, explicit 
 }
 
 func (p *Parser) ParsePostfixExpression(left ast.Expression) (ast.Expression, error) {
+	// The node starts where its operand starts: work on a copy so that the position
+	// of the parser's current token (the operator) stays what the lexer reported
 	exp := &ast.PostfixExpression{
-		Meta: p.curToken,
+		Meta: p.curToken.Clone(),
 		Left: left,
 	}
 	exp.Operator = p.curToken.Token.Literal
